@@ -16,6 +16,7 @@
        ThrottleOK  a redraw caused by advance() comes no sooner than `interval` after the previous redraw caused by
                    advance()
        LineOK      after a call that drew, the last non-blank row of the terminal is exactly that frame
+       CurrentShown  after start / set_message / finish the indicator's line shows the message in force, drawn by that call
        QuietOK     a quiet output receives nothing
    A-layer (progress_indicator.py): started, message, current, update = _started, _message, _current, _update_time;
        start() also arms the throttle (update = now + interval), so the first advance() redraw comes no sooner than
@@ -44,6 +45,12 @@ FrameOKFor(c, ev, m) == \A k \in 1..Len(ev.frames) : FrameShows(c, ev.frames[k],
 ThrottleOKFor(c, ev) == (ev.op = "advance" /\ ev.frames # <<>> /\ ev.gap >= 0) => ev.gap >= c.interval
 LineOKFor(c, ev, t) == (ev.frames # <<>> /\ c.mode # "quiet") =>
                           LET s == Screen(t) IN s # <<>> /\ s[Len(s)] = RTrim(ev.frames[Len(ev.frames)])
+\* start(), set_message() and finish() show the message they were given: after the call the last non-blank row is a frame
+\* with the message in force, and it was drawn by this call (it is not above the row the cursor was on before the call) -
+\* also when the same indicator object is started again after a finish()
+CurrentShownFor(c, ev, before, after, m) ==
+  (c.mode # "quiet" /\ ev.exc = "" /\ ev.op \in {"start", "set", "finish"}) =>
+     LET s == Screen(after) IN s # <<>> /\ Len(s) >= before.r /\ FrameShows(c, s[Len(s)], m)
 QuietOKFor(c, ev) == c.mode = "quiet" => (ev.ops = <<>> /\ ev.frames = <<>>)
 
 FrameOK == FrameOKFor(cfg, last, ind.message)
